@@ -650,3 +650,19 @@ for _op, _nm in (('add', 'add'), ('sub', 'sub'), ('mul', 'mul'), ('truediv', 'di
                  ('mod', 'mod')):
     HANDLERS['operator.' + _op] = (lambda nm: (lambda ip, st, a, kw, node: arith(nm, a[0], a[1])))(_nm)
 HANDLERS['operator.neg'] = lambda ip, st, a, kw, node: arith('mul', Poly.const(-1), a[0])
+
+
+def _h_writes_first(name):
+    """np.copyto(dst, src), np.putmask(a, mask, values), np.place(a, mask, values), np.fill_diagonal(a, v): procedures
+    that write into their first argument"""
+    def h(ip, st, args, kw, node):
+        dst = args[0] if args else kw.get('dst', kw.get('a'))
+        if dst is not None:
+            val = args[-1] if len(args) > 1 else kw.get('src', kw.get('values'))
+            ip.log_write(st, f'numpy.{name}', dst, node, value=val)
+        return NONE
+    return h
+
+
+for _n in ('copyto', 'putmask', 'place', 'fill_diagonal'):
+    HANDLERS['numpy.' + _n] = _h_writes_first(_n)
